@@ -236,6 +236,12 @@ class PipeAnalysis:
             tgt = sorted(t.origin) if isinstance(t, TV) else sorted(self.ops.atoms_of(t)) if t is not None else None
             self.ops.pev("expects_grad_check", node, target=tgt, strength=self.validators[info.qualname], validator=info.qualname)
             return None
+        if info.cls is not None and info.name == "__init__" and info.cls.module.name.endswith("_transform.stack") and I.join_depth == 0:
+            # the members of the stack: their order is the order of the rows
+            params = [a.arg for a in info.node.args.args if a.arg not in ("self", "cls")]
+            mem = bound.get(params[0]) if params else None
+            if isinstance(mem, ListV):
+                self.ops.pev("stack_members", node, order=repr(mem.order) if mem.items is None else "concrete", mode=(mem.order[1] if mem.items is None and mem.order is not None else ("concrete" if mem.items is not None else None)))
         if info.cls is not None and self.agg_cls in info.cls.mro and info.name in ("__call__", "forward"):
             m = bound.get("matrix")
             if m is None:
